@@ -106,10 +106,10 @@ CLAIMED = {
             "Jitter comes from the library's use of math/rand's global source, so replays of cases with jitter > 0 are not bit-reproducible. Order of the offline flush is read from long-polling bodies only.",
             "DESIGN.md §3 C15"),
     "C17": ("exploration",
-            "exhaustive request matrix + rapid schedules with a forced yield point (virtual time)",
+            "exhaustive request matrix + rapid schedules with a forced yield point (virtual time) + rapid operation sequences under an injected entropy fault against a model of the live ids",
             "EXHAUSTIVE 4676-request matrix (method x EIO x transport x sid state x b64 x jsonp x HTTP/1.1 | HTTP/2, POSTs also with a form-encoded body naming valid parameters) through ServeHTTP against a fixture with live polling/WebSocket/closed sessions: protocol error code "
             "belongs to the invalid aspects, no session created/closed, live sessions still work; 10^5..10^6 generated ids + real handshakes pairwise distinct; rounds of 64 simultaneous handshakes; handshakes racing Server.Close in a "
-            "synctest bubble with a yield hook before store.set (every created session gets exactly one close callback, nothing admitted after Close returned).",
+            "synctest bubble with a yield hook before store.set (every created session gets exactly one close callback, nothing admitted after Close returned); c17-id-entropy-fault: handshake/close/rewind sequences with crypto/rand.Reader replaced by a generated repeating pattern and the id sequence moved onto a live session's number (hook), oracle = model of live ids (200 with a fresh id and one session, or 5xx and nothing created).",
             "The WebSocket live session runs over the in-memory network; requests are delivered through ServeHTTP on a recorder (no HTTP parsing by net/http for the matrix).",
             "DESIGN.md §3 C17"),
     "C18": ("exploration",
